@@ -128,7 +128,10 @@ impl Fetcher {
         node: NodeId,
         result: FetchResult,
     ) -> ControlFlow<Success, Progress> {
-        self.results.push(node, result);
+        // Never count the local node, nor a node that already has a result.
+        if self.include_node(&node) {
+            self.results.push(node, result);
+        }
         self.finished()
     }
 
